@@ -522,6 +522,40 @@ c05_parse!(c05_normal_71, Normal, 1, 35, 72, 71, 76, false);
 //@ h=c05_normal_74 props=C05 cfgs=K1 tier=t t=600 | funcs: Normal::from_str_bytes | bound: ALL byte strings of length 74 x 3 prefix modes
 c05_parse!(c05_normal_74, Normal, 1, 35, 72, 74, 76, false);
 
+
+// every length at once (symbolic slice length), thorough tier
+macro_rules! c05_symlen {
+    ($name:ident, $ty:ty, $l:literal, $unw:literal) => {
+        #[kani::proof]
+        #[kani::unwind($unw)]
+        fn $name() {
+            let s: [u8; $l + 4] = kani::any();
+            let len: usize = kani::any();
+            kani::assume(len <= $l + 4);
+            let m: u8 = kani::any();
+            kani::assume(m < 3);
+            let r = <$ty>::from_str_bytes(&s[..len], mode_of(m));
+            let len_ok = match m {
+                0 => len == $l || len == $l - 2,
+                1 => len == $l - 2,
+                _ => len == $l,
+            };
+            if !len_ok {
+                assert!(r == Err(ParseError::InvalidStringLength));
+            } else {
+                assert!(r != Err(ParseError::InvalidStringLength));
+            }
+            kani::cover!(r.is_ok());
+            kani::cover!(len == $l + 4);
+            kani::cover!(len == 0);
+        }
+    };
+}
+//@ h=c05_symlen_short props=C05 cfgs=K1 tier=q t=900 | funcs: Short::from_str_bytes | bound: ALL byte strings of EVERY length 0..=36 (symbolic length) x 3 prefix modes: InvalidStringLength iff the length is wrong for the mode; no panic
+c05_symlen!(c05_symlen_short, Short, 32, 40);
+//@ h=c05_symlen_normal props=C05 cfgs=K1 tier=t t=2400 | funcs: Normal::from_str_bytes | bound: all byte strings of every length 0..=76 x 3 prefix modes
+c05_symlen!(c05_symlen_normal, Normal, 72, 80);
+
 // strict parser
 //@ h=c15_short_30 props=C15 cfgs=K7 tier=q t=900 | funcs: Short::from_str_bytes with feature strict-parser, FuzzyHashChecksum::is_valid, FuzzyHashLengthEncoding::is_valid | bound: ALL byte strings of length 30 x 3 prefix modes
 c05_parse!(c15_short_30, Short, 1, 15, 32, 30, 36, true);
